@@ -12,7 +12,7 @@ RULE = ("msg.hash(bytes) events for every length 0..1100, 10^k-1/10^k/10^k+1 (k<
         "decimal(len) m; CLI `hash message` and `sign message` through file and stdin (the signature must recover to the account "
         "over that digest). distinct = distinct messages; non-trivial = digest compared")
 REQUIRED = (["len-0", "len-1-digit", "len-2-digits", "len-3-digits", "len-4-digits", "len-5-digits", "len-6-digits", "invalid-utf8",
-             "looks-like-prefix", "all-byte-values", "cli-hash-file", "cli-hash-stdin", "cli-sign-recovers", "len-9", "len-10", "len-99",
+             "looks-like-prefix", "looks-like-hex-or-json", "all-byte-values", "cli-hash-file", "cli-hash-stdin", "cli-sign-recovers", "len-9", "len-10", "len-99",
              "len-100", "len-999", "len-1000", "len-9999", "len-10000", "len-99999", "len-100000", "len-999999", "len-1000000", "len-1000001", "len-7-digits"])
 
 
@@ -110,6 +110,12 @@ def gen(shard, rng, tier):
                 m = rng.choice([b"\xff", b"\xc3", b"\xed\xa0\x80", b"\xf8\x88\x80\x80\x80", b"\x80abc", b"ab\xc0\xaf"]) + rand_bytes(rng, rng.randrange(20))
             elif k == 3:
                 m = ("héllo \U0001f600 " * rng.randint(1, 5)).encode()
+            elif k == 4 and rng.random() < 0.5:
+                # text that looks like an encoding of something else: it is still hashed as the bytes given
+                h = rand_bytes(rng, rng.choice([1, 2, 20, 32, 33])).hex()
+                m = rng.choice([b"0x" + h.encode(), b"0x", b"0X" + h.encode(), h.encode(), b"0x" + h.upper().encode(), b"0x" + h.encode() + b"\n",
+                                b"12", b"0", b"{}", b"[]", b"\"hi\"", b"true", b"0x0", b"0x1"])
+                tags = ["looks-like-hex-or-json"]
             elif k == 4:
                 m = rng.choice([b"\n", b"\r\n", b"\x00", b" ", b"\x19", b"\x00" * 32, b"hello world!", b"Hello World!"])
             else:
@@ -119,7 +125,10 @@ def gen(shard, rng, tier):
         for _ in range(shard["count"]):
             n = rng.choice([0, 1, 9, 10, 11, 12, 99, 100, 101, 999, 1000, 1001, 9999, 10000, rng.randrange(0, 3000)])
             m = rand_bytes(rng, n)
-            if rng.random() < 0.3:
+            if rng.random() < 0.15:
+                h = rand_bytes(rng, rng.choice([1, 2, 20, 32])).hex()
+                m = rng.choice([b"0x" + h.encode(), b"0x", h.encode(), b"0x" + h.encode() + b"\n", b"12", b"{}"])
+            elif rng.random() < 0.3:
                 # bytes that text-oriented input handling tends to eat
                 m = rng.choice([b"\n", b"hello\n", b"hello\r\n", b"\nhello", b" hello ", b"hello\n\n", b"\x00", b"hello\x00", b"\xef\xbb\xbfhello", b"\xff\n",
                                 m + b"\n", b"\n" + m])
